@@ -14,12 +14,12 @@ import (
 var errSentinel = errors.New("verif sentinel failure")
 
 type Spies struct {
-	mu     sync.Mutex
-	Log    []string
+	mu      sync.Mutex
+	Log     []string
 	FailErr error // the error of the failing invocation (nil: errSentinel)
-	FailAt int // 1-based; 0 = never
-	count  int
-	Calls  map[string]int
+	FailAt  int   // 1-based; 0 = never
+	count   int
+	Calls   map[string]int
 }
 
 func NewSpies() *Spies { return &Spies{Calls: map[string]int{}} }
